@@ -959,7 +959,7 @@ func (g *grammarCtx) subParsers(fn *ssa.Function) map[string]bool {
 		if nm == "some" || nm == "many" {
 			// the closure's own sub-parsers
 			if mc, ok := ci.Common().Args[3].(*ssa.MakeClosure); ok {
-				for k := range g.subParsers(mc.Fn.(*ssa.Function)) {
+				for k := range g.subParsers(unwrapThunk(mc.Fn.(*ssa.Function))) {
 					out[nm+"{"+k+"}"] = true
 				}
 			}
